@@ -71,9 +71,9 @@ theorem w_step_open {s : State} {w' : World} {c fr p content f n r} (cx : WCtx s
   have hcr : fCreat (openFlags fr.op.flag) = true := by rw [cx.flag]; decide
   have hex : fExcl (openFlags fr.op.flag) = false := by rw [cx.flag]; decide
   rcases cls_open hcr hex h with ⟨e, hf, rfl, rfl⟩ | ⟨hf, rfl, rfl⟩
-  · rw [nextFrame_flt_err hf]; simp only [advancePc]
+  · rw [nextFrame_flt_err hf]; simp only [advancePc, finPc_eq]
     exact ⟨.inr ⟨rfl, by simp⟩, fun v hv => (by rw [hr] at hv; cases hv)⟩
-  · simp only [advancePc, Gen.Lockedfile.truncAfterLock, Bool.not_true, Bool.and_false, Bool.false_eq_true, if_false]
+  · simp only [advancePc, finPc_eq, Gen.Lockedfile.truncAfterLock, Bool.not_true, Bool.and_false, Bool.false_eq_true, if_false]
     exact ⟨hr, _, upd_same _ _ _, rfl⟩
 
 theorem w_step_lock {s : State} {w' : World} {c fr p content fd f n r} (cx : WCtx s c fr p content)
@@ -88,12 +88,12 @@ theorem w_step_lock {s : State} {w' : World} {c fr p content fd f n r} (cx : WCt
   rcases cls_flock hod (by simp [hwr]) h with ⟨e, hf, rfl, rfl⟩ | ⟨hf, hc, rfl, rfl⟩
   · rw [nextFrame_flt_err hf]
     have : advancePc fr.op (.lock fd) n (.err e) = .lock fd ∨ advancePc fr.op (.lock fd) n (.err e) = .close fd .err false := by
-      simp only [advancePc]; cases e <;> simp [Gen.Lockedfile.retriesEINTR]
+      simp only [advancePc, finPc_eq]; cases e <;> simp [Gen.Lockedfile.retriesEINTR]
     rcases this with hp | hp <;> rw [hp]
     · exact ⟨hcn, _, hod, hoff⟩
     · exact ⟨.inr ⟨rfl, by simp⟩, fun v hv => (by rw [hcn] at hv; cases hv)⟩
   · have hp : advancePc fr.op (.lock fd) n .ok = .trunc fd := by
-      simp only [advancePc, afterLock, cx.flag]
+      simp only [advancePc, finPc_eq, afterLock, cx.flag]
       have : wantsTrunc Gen.Lockedfile.flagsWrite = true := by decide
       simp [this, Gen.Lockedfile.truncAfterLock]
     rw [hp]
@@ -109,11 +109,11 @@ theorem w_step_trunc {s : State} {w' : World} {c fr p content fd f n r} (cx : WC
   rw [hod] at ho'; cases ho'
   rw [writeOK_next, nextFrame_committed_keep (by simp [hpc, releases]), hpc]
   rcases cls_ftruncate hod hwr h with ⟨e, hf, rfl, rfl⟩ | ⟨hf, rfl, rfl⟩
-  · rw [nextFrame_flt_err hf]; simp only [advancePc]
+  · rw [nextFrame_flt_err hf]; simp only [advancePc, finPc_eq]
     exact ⟨hcn, by simp⟩
   · have hadv : advancePc fr.op (.trunc fd) n .ok =
         (if content.isEmpty then Pc.unlock fd .ok else .copy fd content) := by
-      rw [cx.hop]; simp [advancePc, Gen.Lockedfile.truncAfterLock, afterOpen]
+      rw [cx.hop]; simp [advancePc, finPc_eq, Gen.Lockedfile.truncAfterLock, afterOpen, finPc_eq]
     rw [hadv]
     have hts : Gen.Lockedfile.truncSize = 0 := by decide
     split
@@ -131,7 +131,7 @@ theorem w_step_truncStat {s : State} {w' : World} {c fr p content fd f n r} (_cx
     WriteOK w' (nextFrame s.w w' fr (.fstat fd) .truncStat f n r) content := by
   unfold WriteOK at hr; rw [hpc] at hr
   rw [writeOK_next, nextFrame_committed_keep (by simp [hpc, releases]), hpc]
-  simp only [advancePc]
+  simp only [advancePc, finPc_eq]
   exact ⟨hr.1, .inr ⟨rfl, nextFrame_flt_ne hr.2⟩⟩
 
 theorem w_step_copy {s : State} {w' : World} {c fr p content fd rest f n r} (cx : WCtx s c fr p content)
@@ -145,10 +145,10 @@ theorem w_step_copy {s : State} {w' : World} {c fr p content fd rest f n r} (cx 
   have hD' : s.w.content od.path ++ rest = content := by rw [hpath]; exact hD
   have hoff' : od.off = (s.w.content od.path).length := by rw [hpath]; exact hoff
   rw [writeOK_next, nextFrame_committed_keep (by simp [hpc, releases]), hpc]
-  rcases cls_write hod hwr happ h with ⟨e, hf, rfl, rfl⟩ | ⟨rfl, rfl, rfl⟩ | ⟨k, rfl, rfl, rfl⟩
-  · rw [nextFrame_flt_err hf]; simp only [advancePc]
+  rcases cls_write hod hwr happ h with ⟨e, hf, rfl, rfl⟩ | ⟨hna, rfl, rfl⟩ | ⟨k, rfl, rfl, rfl⟩
+  · rw [nextFrame_flt_err hf]; simp only [advancePc, finPc_eq]
     exact ⟨hcn, .inr ⟨rfl, by simp⟩⟩
-  · rw [nextFrame_flt_none]; simp only [advancePc]
+  · rw [nextFrame_flt_noaffect hna]; simp only [advancePc, finPc_eq]
     have hnew : World.content { s.w with
         files := upd s.w.files od.path (some (pwriteAt (s.w.content od.path) od.off (rest.take n))),
         fds := upd s.w.fds fd (some { od with off := od.off + (rest.take n).length }) } fr.op.path =
@@ -169,7 +169,7 @@ theorem w_step_copy {s : State} {w' : World} {c fr p content fd rest f n r} (cx 
       refine ⟨hcn, fun e => he (by simp [e]), _, upd_same _ _ _, ?_, ?_⟩
       · rw [hnew, List.append_assoc, List.take_append_drop]; exact hD'
       · rw [hnew]; simp [hoff']
-  · rw [nextFrame_flt_short_write]; simp only [advancePc]
+  · rw [nextFrame_flt_short_write]; simp only [advancePc, finPc_eq]
     exact ⟨hcn, .inr ⟨rfl, by simp⟩⟩
 
 theorem w_step_unlock {s : State} {w' : World} {c fr p content fd ret f n r} (cx : WCtx s c fr p content)
@@ -187,7 +187,7 @@ theorem w_step_unlock {s : State} {w' : World} {c fr p content fd ret f n r} (cx
       rcases hfin with ⟨rfl, _⟩ | ⟨rfl, _⟩ <;> simp [closeRet, cx.hop, reportsCloseErr]
     have : advancePc fr.op (.unlock fd ret) n (.err e) = .unlock fd ret ∨
         advancePc fr.op (.unlock fd ret) n (.err e) = .close fd .err true := by
-      simp only [advancePc, hcr]; cases e <;> simp [Gen.Lockedfile.retriesEINTR]
+      simp only [advancePc, finPc_eq, hcr]; cases e <;> simp [Gen.Lockedfile.retriesEINTR]
     rcases this with hp | hp <;> rw [hp]
     · refine ⟨hcn, ?_⟩
       rcases hfin with h1 | ⟨h1, _⟩
@@ -196,7 +196,7 @@ theorem w_step_unlock {s : State} {w' : World} {c fr p content fd ret f n r} (cx
     · exact ⟨hcn, rfl, by simp⟩
   · rw [nextFrame_flt_noerr hf (by intros; simp) (by intros; simp),
       nextFrame_committed_release (by simp [hpc, releases]) hexm]
-    simp only [advancePc]
+    simp only [advancePc, finPc_eq]
     refine ⟨?_, fun v hv => ?_⟩
     · rcases hfin with ⟨h1, h2⟩ | h1
       · exact .inl ⟨h1, by rw [h2]⟩
@@ -220,24 +220,29 @@ theorem w_step_close {s : State} {w' : World} {c fr p content fd ret b f n r} (c
   · -- the lock has been released already
     rw [nextFrame_committed_keep (by simp [hpc, releases]), nextFrame_h1_eq (by intro fd e; rw [hpc] at e; cases e)]
     have hpu := hr.2.mono (osStep_hist_suffix h fr.op.path)
-    rcases cls_close hod h with ⟨e, hf, rfl, rfl⟩ | ⟨hf, rfl, rfl⟩
-    · rw [nextFrame_flt_err hf]; simp only [advancePc]
+    rcases cls_close hod h with ⟨e, hf, rfl, rfl⟩ | ⟨hf, hns, rfl, rfl⟩ | ⟨rfl, rfl, rfl⟩
+    · rw [nextFrame_flt_err hf]; simp only [advancePc, finPc_eq]
       refine ⟨.inr ⟨?_, by simp⟩, hpu⟩
       rcases hr.1 with ⟨rfl, _⟩ | ⟨rfl, _⟩ <;> simp [closeRet, cx.hop, reportsCloseErr]
-    · rw [nextFrame_flt_noerr hf (by intros; simp) (by intros; simp)]; simp only [advancePc]; exact ⟨hr.1, hpu⟩
+    · rw [nextFrame_flt_noaffect (affects_close_false hf hns fd)]; simp only [advancePc, finPc_eq]; exact ⟨hr.1, hpu⟩
+    · rw [nextFrame_flt_shared_close]; simp only [advancePc, finPc_eq]
+      refine ⟨?_, hpu⟩
+      rcases hr.1 with h1 | ⟨h1, _⟩
+      · exact .inl h1
+      · exact .inr ⟨h1, by simp⟩
   · obtain ⟨hcn, rfl, hne⟩ := hr
     have hd : ∃ ret', advancePc fr.op (.close fd .err true) n r = .done ret' ∧ ret' = .err := by
-      simp only [advancePc]; split
+      simp only [advancePc, finPc_eq]; split
       · exact ⟨_, rfl, rfl⟩
       · exact ⟨_, rfl, by simp [closeRet]⟩
     obtain ⟨ret', hp, rfl⟩ := hd
     rw [hp]
     refine ⟨.inr ⟨rfl, nextFrame_flt_ne hne⟩, fun v hv => ?_⟩
     -- the commit (if the close succeeded) sits on top of the history at the flock step
-    rcases cls_close hod h with ⟨e, hf, rfl, rfl⟩ | ⟨hf, rfl, rfl⟩
-    · rw [nextFrame_committed_keep (by simp [hpc, releases]), hcn] at hv; cases hv
+    rcases cls_close hod h with ⟨e, hf, rfl, rfl⟩ | ⟨hf, hns, rfl, rfl⟩ | ⟨rfl, rfl, rfl⟩
+    rotate_left
     · have hexm : lockMode fr.op.flag = .ex := by rw [cx.flag]; decide
-      rw [nextFrame_committed_release (by simp [hpc, releases]) hexm] at hv
+      rw [nextFrame_committed_release (by simp [hpc, releases, hns]) hexm] at hv
       cases hv
       have hl := (((cx.hi.clients c).frame fr cx.hcur).fd fd (by simp [hpc, Pc.fd?])).2.2
       simp only [hpc, Pc.locked, if_true, hexm] at hl
@@ -245,6 +250,8 @@ theorem w_step_close {s : State} {w' : World} {c fr p content fd ret b f n r} (c
       simp only [HistOK, hpc, Pc.preLock, Pc.locked, Bool.false_eq_true, if_false, if_true] at hh
       rw [nextFrame_h1_eq (by intro fd e; rw [hpc] at e; cases e), closeFd_hist, hpath, dropLock_pushes hl, hh.1]
       exact List.suffix_refl _
+    · rw [nextFrame_committed_keep (by simp [hpc, releases]), hcn] at hv; cases hv
+    · rw [nextFrame_committed_keep (by simp [hpc, releases]), hcn] at hv; cases hv
 
 theorem writeOK_step {s : State} {w' : World} {c : Cid} {fr : Frame} {p content n sc tag f r}
     (cx : WCtx s c fr p content) (hr : WriteOK s.w fr content) (hs : sysOf fr n = some (sc, tag))
@@ -404,7 +411,7 @@ theorem reachable_hist_ne {files0 : Path → Option Bytes} {s : State} (h : Reac
     rw [e] at this
     exact ih (List.eq_nil_of_suffix_nil this)
 
-theorem releases_pc {pc : Pc} {r : Res} (h : releases pc r = true) :
+theorem releases_pc {pc : Pc} {r : Res} {f : Fault} (h : releases pc r f = true) :
     pc.locked = true ∧ pc.preLock = false ∧ ∀ fd, pc ≠ .lock fd := by
   cases pc <;> simp [releases] at h <;> first | (cases r <;> simp at h; done) | skip
   · exact ⟨rfl, rfl, fun fd e => by cases e⟩
@@ -435,7 +442,7 @@ theorem reachable_committed_h1 {files0 : Path → Option Bytes} {s : State} (h :
         have hne' := reachable_hist_ne (Reachable.step _ hr hs)
         obtain ⟨fr0, sc, tag, w', r, hcur0, hsys, hos, rfl⟩ := step_sys hs
         simp only [upd_same, Option.some.injEq] at hcur; subst hcur
-        by_cases hrel : releases fr0.pc r = true
+        by_cases hrel : releases fr0.pc r f = true
         · obtain ⟨hl, hnp, hnl⟩ := releases_pc hrel
           have hh := (reachable_Inv2 hr).hist c fr0 hcur0 hop
           unfold HistOK at hh
